@@ -219,3 +219,40 @@ Lemma cycle_guard_exact_nonvacuous :
   guard_C11_cycle (disk_of cycle_store) cycle_cache cycle_op = false /\
   guard_C11_tx (disk_of cycle_store) cycle_cache cycle_op = false.
 Proof. split; [apply wf_of_closedb with (s := cycle_store); reflexivity|]. repeat split; reflexivity. Qed.
+
+(* the cycle guard can only reject an operation whose top-level identifier is already stored: a store of a new
+   identifier always passes it (the finding overwrite-creates-cycle needs an overwrite) *)
+Lemma cycle_guard_false_root s c n tx :
+  closed s -> collect (keys s) c n [] = Ok tx -> no_back_refb s (proj tx) = false -> lookup (nid_of n) s <> None.
+Proof.
+  intros Hc Ec Hg.
+  assert (HS : InvS (keys s) c (nid_of n) tx).
+  { apply (collect_invS (keys s) c (nid_of n) n [] tx); auto. intros ? []. }
+  unfold no_back_refb in Hg. apply forallb_false_ex in Hg. destruct Hg as ([i x] & Hent & Hx). cbn in Hx.
+  destruct x as [p refs|]; [|discriminate].
+  apply forallb_false_ex in Hx. destruct Hx as (r & Hr & Hrx). apply orb_false_iff in Hrx. destruct Hrx as [Hnot Hre].
+  apply forallb_false_ex in Hre. destruct Hre as (w & Hw & Hrw). apply negb_false_iff in Hrw.
+  apply reachb_sound in Hrw.
+  assert (Hne : r <> w).
+  { intros ->. apply memb_In in Hw. rewrite Hw in Hnot. discriminate. }
+  pose proof (Reach_target_listed s Hc r w Hrw Hne) as Hl.
+  rewrite keys_proj in Hw. destruct (HS w Hw) as [Hst|E]; [|rewrite <- E; exact Hl].
+  exfalso. unfold in_storage in Hst. apply orb_false_iff in Hst. destruct Hst as [_ Hst].
+  assert (Hmb : memb w (keys s) = true) by (apply memb_In; apply lookup_keys_in; exact Hl).
+  rewrite Hmb in Hst. discriminate.
+Qed.
+
+Theorem store_passes_cycle_guard : forall v b d c n steps c',
+  wf d c -> plan_of v b d c (OStore n) = PSteps steps c' -> guard_C11_cycle d c (OStore n) = true.
+Proof.
+  intros v b d c n steps c' (s & Hm & Hc & Hcache) Hp.
+  unfold guard_C11_cycle. unfold plan_of in Hp. rewrite (view_main _ _ Hm) in *.
+  destruct n as [i tg p kids|]; [|discriminate].
+  destruct (lookup i c) as [t|]. { destruct (t =? tg); discriminate. }
+  destruct (memb i (keys s)) eqn:Em; [discriminate|].
+  destruct (collect (keys s) c (Node i tg p kids) []) as [tx|e] eqn:Ec; [|reflexivity].
+  destruct (no_back_refb s (map (fun e => (fst e, snd (snd e))) tx)) eqn:Eg; [reflexivity|].
+  exfalso. pose proof (cycle_guard_false_root s c (Node i tg p kids) tx Hc Ec Eg) as Hl. cbn in Hl.
+  assert (Hmb : memb i (keys s) = true) by (apply memb_In; apply lookup_keys_in; exact Hl).
+  rewrite Hmb in Em. discriminate.
+Qed.
